@@ -507,6 +507,323 @@ func runSession(id string, listening, withObserver bool, steps []stepIn) (res se
 	return res, nil
 }
 
+// ---------- "to the same server": DialAddr vs url host ----------
+
+// dialServer is one harness DNS server: UDP and TCP on the same ip:port. Its
+// replies carry its index: ANCOUNT idx+1 over UDP, idx+11 over TCP.
+type dialServer struct {
+	idx  int
+	ip   string
+	port int
+	uc   *net.UDPConn
+	tl   net.Listener
+}
+
+type dialWorld struct {
+	srv   []*dialServer
+	b2    int
+	mu    sync.Mutex
+	udpAt map[int]bool
+	tcpAt []int
+	conns []net.Conn
+	wg    sync.WaitGroup
+}
+
+func hostPort(ip string, port int) string { return net.JoinHostPort(ip, fmt.Sprint(port)) }
+
+func bindBoth(ip string, port int) (*net.UDPConn, net.Listener, error) {
+	uc, err := net.ListenUDP("udp", &net.UDPAddr{IP: net.ParseIP(ip), Port: port})
+	if err != nil {
+		return nil, nil, err
+	}
+	tl, err := net.Listen("tcp", hostPort(ip, uc.LocalAddr().(*net.UDPAddr).Port))
+	if err != nil {
+		uc.Close()
+		return nil, nil, err
+	}
+	return uc, tl, nil
+}
+
+// newDialWorld: server 0 at 127.0.0.1:P, server 1 at decoy:P, server 2 at decoy:P2.
+func newDialWorld(decoy string, b2 int) (*dialWorld, error) {
+	var lastErr error
+	for try := 0; try < 100; try++ {
+		var got []*dialServer
+		fail := func(err error) {
+			lastErr = err
+			for _, s := range got {
+				s.uc.Close()
+				s.tl.Close()
+			}
+		}
+		uc, tl, err := bindBoth("127.0.0.1", 0)
+		if err != nil {
+			fail(err)
+			continue
+		}
+		p := uc.LocalAddr().(*net.UDPAddr).Port
+		got = append(got, &dialServer{idx: 0, ip: "127.0.0.1", port: p, uc: uc, tl: tl})
+		uc, tl, err = bindBoth(decoy, p)
+		if err != nil {
+			fail(err)
+			continue
+		}
+		got = append(got, &dialServer{idx: 1, ip: decoy, port: p, uc: uc, tl: tl})
+		uc, tl, err = bindBoth(decoy, 0)
+		if err != nil {
+			fail(err)
+			continue
+		}
+		p2 := uc.LocalAddr().(*net.UDPAddr).Port
+		got = append(got, &dialServer{idx: 2, ip: decoy, port: p2, uc: uc, tl: tl})
+		w := &dialWorld{srv: got, b2: b2, udpAt: map[int]bool{}}
+		for _, s := range got {
+			w.wg.Add(2)
+			go w.serveUDP(s)
+			go w.serveTCP(s)
+		}
+		return w, nil
+	}
+	return nil, lastErr
+}
+
+func (w *dialWorld) close() {
+	for _, s := range w.srv {
+		s.uc.Close()
+		s.tl.Close()
+	}
+	w.mu.Lock()
+	for _, c := range w.conns {
+		c.Close()
+	}
+	w.mu.Unlock()
+	w.wg.Wait()
+}
+
+func (w *dialWorld) serveUDP(s *dialServer) {
+	defer w.wg.Done()
+	buf := make([]byte, 65536)
+	for {
+		n, addr, err := s.uc.ReadFromUDP(buf)
+		if err != nil {
+			return
+		}
+		if n < 12 {
+			continue
+		}
+		q := append([]byte(nil), buf[:n]...)
+		w.mu.Lock()
+		w.udpAt[s.idx] = true
+		w.mu.Unlock()
+		s.uc.WriteToUDP(rawMsg(wireID(q), w.b2, 0x80, s.idx+1, q[12:], []byte{byte(s.idx)}), addr)
+	}
+}
+
+func (w *dialWorld) serveTCP(s *dialServer) {
+	defer w.wg.Done()
+	for {
+		c, err := s.tl.Accept()
+		if err != nil {
+			return
+		}
+		w.mu.Lock()
+		w.conns = append(w.conns, c)
+		w.mu.Unlock()
+		w.wg.Add(1)
+		go func() {
+			defer w.wg.Done()
+			defer c.Close()
+			for {
+				var hdr [2]byte
+				if _, err := io.ReadFull(c, hdr[:]); err != nil {
+					return
+				}
+				q := make([]byte, binary.BigEndian.Uint16(hdr[:]))
+				if _, err := io.ReadFull(c, q); err != nil || len(q) < 12 {
+					return
+				}
+				w.mu.Lock()
+				w.tcpAt = append(w.tcpAt, s.idx)
+				w.mu.Unlock()
+				r := rawMsg(wireID(q), 0x84, 0x80, s.idx+11, q[12:], []byte{byte(s.idx), 0xEE})
+				frame := make([]byte, 2+len(r))
+				binary.BigEndian.PutUint16(frame, uint16(len(r)))
+				copy(frame[2:], r)
+				if _, err := c.Write(frame); err != nil {
+					return
+				}
+			}
+		}()
+	}
+}
+
+// A dial case: the url names server urlSrv in one of the forms below, DialAddr
+// (when dialSrv >= 0) names server dialSrv as ip:port.
+//   form 0: udp://host:port   1: host:port   2: udp://host   3: host
+// Forms without a port are only used with DialAddr (the port would be 53).
+type dialCase struct {
+	id      string
+	decoy   string
+	urlSrv  int
+	form    int
+	dialSrv int
+	b2      int
+	urlHost string // when not "": a host name instead of a harness server (DialAddr decides)
+}
+
+func bracket(ip string) string {
+	if bytes.IndexByte([]byte(ip), ':') >= 0 {
+		return "[" + ip + "]"
+	}
+	return ip
+}
+
+// runDial returns nil when the decoy address cannot be bound here.
+func runDial(dc dialCase) *sessResult {
+	w, err := newDialWorld(dc.decoy, dc.b2)
+	if err != nil {
+		return nil
+	}
+	defer w.close()
+	us := w.srv[dc.urlSrv]
+	host, port := bracket(us.ip), us.port
+	if dc.urlHost != "" {
+		host = dc.urlHost
+	}
+	var url string
+	switch dc.form {
+	case 0:
+		url = fmt.Sprintf("udp://%s:%d", host, port)
+	case 1:
+		url = fmt.Sprintf("%s:%d", host, port)
+	case 2:
+		url = "udp://" + host
+	default:
+		url = host
+	}
+	dial := ""
+	want := dc.urlSrv
+	if dc.dialSrv >= 0 {
+		ds := w.srv[dc.dialSrv]
+		dial = hostPort(ds.ip, ds.port)
+		want = dc.dialSrv
+	}
+	kind, from, intact := 2, 0, true
+	var u upstream.Upstream
+	p := hx.Recover(func() {
+		var nerr error
+		u, nerr = upstream.NewUpstream(url, upstream.Opt{DialAddr: dial})
+		if nerr != nil {
+			kind = 3
+			return
+		}
+		q := rawMsg(0x1D17, 1, 0, 0, hx.GenBytes(17, 5))
+		ctx, cancel := context.WithTimeout(context.Background(), blockedTimeout)
+		r, xerr := u.ExchangeContext(ctx, q)
+		cancel()
+		if xerr != nil || r == nil {
+			return
+		}
+		b := *r
+		if len(b) >= 12+17 {
+			an := int(binary.BigEndian.Uint16(b[6:]))
+			switch {
+			case an >= 1 && an <= 3:
+				kind, from = 0, an-1
+			case an >= 11 && an <= 13:
+				kind, from = 1, an-11
+			}
+			intact = wireID(b) == 0x1D17 && bytes.Equal(b[12:12+17], q[12:])
+		}
+		pool.ReleaseBuf(r)
+	})
+	if p != nil {
+		kind = 4
+	}
+	if u != nil {
+		u.Close()
+	}
+	w.mu.Lock()
+	var udpAt []int
+	for i := range w.srv {
+		if w.udpAt[i] {
+			udpAt = append(udpAt, i)
+		}
+	}
+	tcpAt := append([]int(nil), w.tcpAt...)
+	w.mu.Unlock()
+	servers := make([]string, len(w.srv))
+	for i, s := range w.srv {
+		servers[i] = hx.Tuple(hx.Str(s.ip), hx.Ni(s.port))
+	}
+	where := func(xs []int) []string {
+		out := []string{}
+		for _, i := range xs {
+			out = append(out, hostPort(w.srv[i].ip, w.srv[i].port))
+		}
+		return out
+	}
+	fkey := "dial:no-dialaddr"
+	if dial != "" {
+		fkey = "dial:dialaddr"
+	}
+	return &sessResult{kind: fkey, c: hx.Case{
+		ID: dc.id,
+		Coq: hx.App("CDial", hx.Str(url), hx.Str(dial), hx.List(servers), hx.Ni(dc.b2), hx.Ni(want),
+			hx.NList(udpAt), hx.NList(tcpAt), hx.Tuple(hx.Ni(kind), hx.Ni(from)), hx.Bool(intact)),
+		Desc: map[string]any{"kind": "dial", "url": url, "dial_addr": dial, "udp_tc": dc.b2&2 != 0,
+			"intended_server": hostPort(w.srv[want].ip, w.srv[want].port),
+			"udp_query_arrived_at": where(udpAt), "tcp_query_arrived_at": where(tcpAt),
+			"result": [...]string{"udp reply", "tcp reply", "error", "NewUpstream error", "panic"}[kind], "reply_from_server": from},
+		FKey: fkey,
+	}}
+}
+
+var decoys = []string{"127.0.0.2", "127.0.0.3", "::1"}
+
+func dialCatalogue() []dialCase {
+	var out []dialCase
+	add := func(dc dialCase) {
+		dc.id = fmt.Sprintf("cat:dial:%d", len(out))
+		out = append(out, dc)
+	}
+	for _, decoy := range decoys {
+		for _, b2 := range []int{0x82, 0x80, 0x87} {
+			// DialAddr = the real server, url = a decoy in every form
+			for form := 0; form < 4; form++ {
+				add(dialCase{decoy: decoy, urlSrv: 2, form: form, dialSrv: 0, b2: b2})
+			}
+			add(dialCase{decoy: decoy, urlSrv: 1, form: 0, dialSrv: 0, b2: b2}) // same port, other host
+			// the other way round, and between the two decoy ports
+			add(dialCase{decoy: decoy, urlSrv: 0, form: 0, dialSrv: 2, b2: b2})
+			add(dialCase{decoy: decoy, urlSrv: 0, form: 3, dialSrv: 1, b2: b2})
+			add(dialCase{decoy: decoy, urlSrv: 1, form: 1, dialSrv: 2, b2: b2})
+			// controls without DialAddr: the url decides
+			add(dialCase{decoy: decoy, urlSrv: 0, form: 0, dialSrv: -1, b2: b2})
+			add(dialCase{decoy: decoy, urlSrv: 0, form: 1, dialSrv: -1, b2: b2})
+			add(dialCase{decoy: decoy, urlSrv: 2, form: 0, dialSrv: -1, b2: b2})
+			add(dialCase{decoy: decoy, urlSrv: 1, form: 1, dialSrv: -1, b2: b2})
+		}
+	}
+	// the url host is a name: only DialAddr is ever dialled
+	for _, b2 := range []int{0x82, 0x80} {
+		add(dialCase{decoy: "127.0.0.2", urlSrv: 2, form: 0, dialSrv: 0, b2: b2, urlHost: "dns.verif.invalid"})
+		add(dialCase{decoy: "127.0.0.2", urlSrv: 2, form: 3, dialSrv: 0, b2: b2, urlHost: "dns.verif.invalid"})
+	}
+	return out
+}
+
+func genDial(id string, r *hx.RNG) dialCase {
+	dc := dialCase{id: id, decoy: hx.Pick(r, decoys), urlSrv: r.Intn(3), form: r.Intn(4), dialSrv: r.Intn(4) - 1, b2: r.Intn(256)}
+	if r.Bool() {
+		dc.b2 |= 2
+	}
+	if dc.dialSrv < 0 {
+		dc.form &= 1 // a url without port would mean port 53
+	}
+	return dc
+}
+
 // ---------- generators ----------
 
 var udpExtra = []int{0, 0, 1, 10, 60, 300}
@@ -742,6 +1059,45 @@ func main() {
 		}
 		jobs = append(jobs, j)
 	}
+	// (c) the TCP retry goes to the server the UDP query went to
+	type djob struct {
+		dc  dialCase
+		res *sessResult
+	}
+	var djobs []*djob
+	for _, dc := range dialCatalogue() {
+		if o.Want(dc.id) {
+			djobs = append(djobs, &djob{dc: dc})
+		}
+	}
+	nd := o.Count(60, 3000)
+	for i := 0; i < nd; i++ {
+		if id := fmt.Sprintf("dial-gen:%d", i); o.Want(id) {
+			djobs = append(djobs, &djob{dc: genDial(id, hx.NewRNG(o.Seed, id))})
+		}
+	}
+	{
+		dsem := make(chan struct{}, 8)
+		var dwg sync.WaitGroup
+		for _, j := range djobs {
+			dwg.Add(1)
+			dsem <- struct{}{}
+			go func(j *djob) {
+				defer dwg.Done()
+				defer func() { <-dsem }()
+				j.res = runDial(j.dc)
+			}(j)
+		}
+		dwg.Wait()
+		for _, j := range djobs {
+			if j.res == nil {
+				w.Tally("dial:skipped(bind "+j.dc.decoy+")", 1)
+				continue
+			}
+			w.Emit(j.res.kind, j.res.c)
+		}
+	}
+
 	results := make([]sessResult, len(jobs))
 	errs := make([]error, len(jobs))
 	sem := make(chan struct{}, 8)
